@@ -187,7 +187,8 @@ PLANS["C11"] = P(
     "model_checking",
     ["hist.expect", "issue.history", "issue.exact", "issue.refs", "issue.accept", "issue.refuse.path", "issue.refuse.reserved", "issue.refuse.nonobject",
      "issue.shape", "present.ok", "present.exact", "present.jwt", "present.shape", "present.kb", "present.kb.none", "verify.accept", "verify.view"],
-    [{"module": "MC_hist", "quick": "MC_hist_quick.cfg", "thorough": "MC_hist.cfg", "timeout": {"quick": 120, "thorough": 600}}],
+    [{"module": "MC_hist", "quick": "MC_hist_quick.cfg", "thorough": "MC_hist.cfg", "timeout": {"quick": 120, "thorough": 600}},
+     {"module": "MC_scratch", "quick": "MC_scratch_quick.cfg", "thorough": "MC_scratch.cfg", "timeout": {"quick": 120, "thorough": 600}}],
     [{"driver": "history", "scn": "MC_hist", "args": {"n": 500, "random": 40}}],
     [{"driver": "history", "scn": "MC_hist", "args": {"n": 100000, "random": 2000}}],
     required={"hist.expect": 1000, "issue.history": 100, "present.ok": 300, "verify.view": 300},
@@ -198,7 +199,9 @@ PLANS["C11"] = P(
     assumptions=_A,
 )
 MANIFEST_TEXT["C11"] = {
-    "text": "In the specification Issue and Present are functions of the call's arguments (no per-instance state); MC_hist enumerates exhaustively all call histories up to the bound "
+    "text": "MC_scratch models the issuer and holder instances with their scratch fields and one action per stage of a call (a call may fail at any stage): TLC shows that every result "
+            "equals the fresh-instance result and that a call fails only for reasons of its own arguments, and finds the counterexamples when the reset / re-initialisation steps are removed. "
+            "In the specification proper Issue and Present are functions of the call's arguments; MC_hist enumerates exhaustively all call histories up to the bound "
             "with the prescribed outcome class per call. Each history is replayed on ONE real instance; TLC validates every event with the ordinary fresh-instance relations (issue.exact, "
             "present.exact, verify.view ...), the model's outcome class (hist.expect) and disjointness from everything the instance emitted before (issue.history).",
     "note": _NOTE, "technique": "TLA+ exhaustive history enumeration (TLC) + replay on one instance + trace validation"}
